@@ -4,11 +4,13 @@ tier=${1:-quick}; shift
 cd "$(dirname "$0")/.."
 ./setup.sh >/dev/null || exit 2
 ids="$@"; [ -z "$ids" ] && ids="C01 C02 C03 C04 C05 C06 C07 C08 C09 C10 C11 C12 C13 C14 C15 C16 C17 C18 C19 C20"
+worst=0
 for id in $ids; do
   s=$(date +%s)
   ./check $id --tier $tier > /tmp/run_all_$id.out 2>&1; rc=$?
   e=$(date +%s)
   echo "$id rc=$rc $((e-s))s $(grep -E '^(OK|VIOLATION|MACHINERY)' /tmp/run_all_$id.out | head -1 | cut -c1-160)"
   grep -E '^KNOWN-FINDING' /tmp/run_all_$id.out | cut -c1-60
-  [ $rc -ne 0 ] && grep -m3 "detail:" /tmp/run_all_$id.out | cut -c1-300
+  if [ $rc -ne 0 ]; then grep -m3 "detail:" /tmp/run_all_$id.out | cut -c1-300; [ $rc -gt $worst ] && worst=$rc; fi
 done
+exit $worst
